@@ -18,8 +18,8 @@ def ents(q, simd):
               E("vp_main_defs", "FP", "sign, madd, lerp, deg2rad = definitions"),
               E("vp_main_cvt", "FP", "cvt_uint32: <=255, saturating, monotone"), E("vp_main_cvt4", "FP", "cvt_uint32(vec4f): each channel in its own byte"),
               E("vp_main_srgb", "FP", "linear_to_srgb monotone/saturating (powf contract), linear_to_srgba per channel, alpha not gamma-mapped"),
-              E("vp_main_dist_biased", "REAL", "pcg32_biased_float_distribution in [lower,upper]; same seed => same values"),
-              E("vp_main_dist_uniform", "REAL", "uniform_real_distribution<float|double> in [lower,upper]; makeRandomColor in [0,1]")]
+              E("vp_main_dist_biased", "REAL", "pcg32_biased_float_distribution in [lower,upper]; same seed => same values", abstract_words=True),
+              E("vp_main_dist_uniform", "REAL", "uniform_real_distribution<float|double> in [lower,upper]; makeRandomColor in [0,1]", abstract_words=True)]
         for n, im in [("i", "INT"), ("u", "INT"), ("l", "INT"), ("ul", "INT"), ("s", "INT"), ("us", "INT"), ("c", "BV"), ("uc", "BV")]:
             if q and n in ("l", "c", "us"):
                 continue
